@@ -22,6 +22,9 @@ CLASS_INV = {
 # per-class executor configuration: which temporaries are used through their class contract
 ABSTRACT = {
     "default": ("Option", "Template"),
+    # Dataset._composed is a tower of verified classes: each level is used through its class contract (compositional proof);
+    # that the tower has the shape the statement requires is a separate structural obligation (contracts/dataset_tower.py)
+    "Dataset": "*",
     "Option": (),
     "Template": ("Option",),
 }
@@ -97,6 +100,27 @@ REGIONS["WithOptions"] = [
 STATEFUL_VALIDATE = ("Cached", "Dataset")
 
 
+def _region_dataset_effects():
+    n, at = seq_at("Dataset", "effects")
+    i = z3.Const("i!reg", T.I)
+    v = z3.Const("v!reg", T.Val)
+    o = z3.Const("o!reg", T.Opt)
+    e = at(i)
+    return [z3.ForAll([i, v, o], z3.Implies(z3.And(i >= 0, i < n), T.TFok(e, v, o)), patterns=[T.TFok(e, v, o)]),
+            z3.ForAll([i, o], z3.Implies(z3.And(i >= 0, i < n), T.VLok(e, o)), patterns=[T.VLok(e, o)])]
+
+
+def _region_dataset_defaults():
+    D = z3.Function("fld!Dataset.default_options", T.Ev, T.Opt)(SELF)
+    return [T.noshadow(O1, D), T.noshadow(O2, D)]
+
+
+def _region_dataset_explain():
+    D = z3.Function("fld!Dataset.default_options", T.Ev, T.Opt)(SELF)
+    P = z3.Function("fld!Dataset.options", T.Ev, T.Opt)(SELF)
+    return [T.noshadow(P, T.mix(D, O1))]
+
+
 def region_hyps(C, law=None):
     out = []
     for ent in REGIONS.get(C, []):
@@ -149,6 +173,24 @@ def temp_contract(ex, obj, t):
         if isinstance(k, str) and k.startswith("LABREA."):
             o = z3.Const("o!flag", T.Opt)
             ex.define(z3.ForAll([o], T.EVok(t, o), patterns=[T.EVok(t, o)]))
+            ex.flag_terms.add(str(t))
+
+
+def templated_keys_contract(ex, vars):
+    """modular use of option._templated_keys(value, options, explain=False)"""
+    v = ex.as_val(vars["value"])
+    o = ex.as_opt(vars["options"])
+    explain = vars.get("explain", False)
+    if explain is True:
+        return KSetV([("term", T.TXset(v, o))])
+    if explain is not False:
+        raise Unsupported("symbolic explain flag")
+    if ex.fork(T.TKok(v, o)):
+        return KSetV([("term", T.TKset(v, o))])
+    ex.do_raise(ExcSym(T.TKexc(v, o), "KeyNotFoundError"))
+
+
+FN_CONTRACTS = {("labrea.option", "_templated_keys"): templated_keys_contract}
 
 
 class Runs:
@@ -157,7 +199,7 @@ class Runs:
         self.cache = {}
         from .cache_model import sound_backend
         self.config = {"abstract_classes": ABSTRACT.get(ci.name, ABSTRACT["default"]), "temp_contract": temp_contract,
-                       "cache_model": sound_backend}
+                       "cache_model": sound_backend, "fn_contracts": FN_CONTRACTS, "reentry_limit": {"WithOptions": 3}}
         if extra_config:
             self.config.update(extra_config)
 
@@ -182,6 +224,25 @@ def base(ci, which=("L1", "L2", "L3", "L4a", "L5", "L5d", "L6", "L6v")):
         hyps += inv(SELF)
     hyps += region_hyps(ci.name)
     return hyps
+
+
+def _option_domain_total():
+    """A-total for Option: values lie in the declared domain"""
+    d = z3.Function("fld!Option.domain", T.Ev, T.Val)(SELF)
+    o = z3.Const("o!dom", T.Opt)
+    v = z3.Const("v!dom", T.Val)
+    dv = T.EVval(T.ev_of(d), o)
+    a = T.pack(T.mkseq(z3.IntVal(1), z3.Store(z3.K(T.I, T.DFLT), 0, v)), T.NOKW)
+    return [z3.ForAll([o, v], z3.And(z3.Implies(T.iscallable(dv), T.truthy(T.call_val(dv, a))),
+                                     z3.Implies(T.iscontainer(dv), T.contains(dv, v))))]
+
+
+CLASS_TOTAL = {"Option": _option_domain_total}
+
+
+def class_total(ci):
+    f = CLASS_TOTAL.get(ci.name)
+    return f() if f else []
 
 
 def base_noregion(ci, which=("L1", "L2", "L3", "L4a", "L5", "L5d", "L6", "L6v")):
@@ -311,7 +372,7 @@ def law_vcs(repo, ci, laws=("L1", "L2", "L3", "L6", "L6v", "L4a", "L5", "L5d", "
             # (b) something listed is absent => validate fails   (under A-total)
             k0 = z3.Const("k!absent", T.Key)
             goal = z3.And(*[z3.Implies(pathcond(v), v.kind == "exc") for v in V1])
-            vcs.append(VC(f"{C}:L5b:explain#{i}", pre + T.total_axioms() + [z3.IsMember(k0, X), z3.Not(T.has(O1, k0))], goal, {"law": "L5b", "cls": C}))
+            vcs.append(VC(f"{C}:L5b:explain#{i}", pre + T.total_axioms() + class_total(ci) + [z3.IsMember(k0, X), z3.Not(T.has(O1, k0))], goal, {"law": "L5b", "cls": C}))
             # (c) a missing-key failure of validate names a listed, absent key
             goal = z3.And(*[z3.Implies(z3.And(pathcond(v), T.missing(exc_term(v))),
                                        z3.And(z3.IsMember(T.mkey(exc_term(v)), X), z3.Not(T.has(O1, T.mkey(exc_term(v))))))
@@ -321,6 +382,14 @@ def law_vcs(repo, ci, laws=("L1", "L2", "L3", "L6", "L6v", "L4a", "L5", "L5d", "
                                        z3.And(z3.IsMember(T.mkey(exc_term(q)), X), z3.Not(T.has(O1, T.mkey(exc_term(q))))))
                             for q in K1 if q.kind == "exc"] or [z3.BoolVal(True)])
             vcs.append(VC(f"{C}:L5e:explain#{i}", pre, goal, {"law": "L5", "cls": C}))
+            if E1 is not None:
+                EE = [e for e in E1 if e.kind == "exc" and not after_return(e)]
+                goal = z3.And(*[z3.Implies(pathcond(e), z3.Not(T.missing(exc_term(e)))) for e in EE] or [z3.BoolVal(True)])
+                vcs.append(VC(f"{C}:L5f:explain#{i}", pre + [none_missing], goal, {"law": "L5", "cls": C}))
+                goal = z3.And(*[z3.Implies(z3.And(pathcond(e), T.missing(exc_term(e))),
+                                           z3.And(z3.IsMember(T.mkey(exc_term(e)), X), z3.Not(T.has(O1, T.mkey(exc_term(e))))))
+                                for e in EE] or [z3.BoolVal(True)])
+                vcs.append(VC(f"{C}:L5g:explain#{i}", pre, goal, {"law": "L5", "cls": C}))
     if "L5d" in laws and X1 is not None:
         for meth, ps in (("validate", V1), ("evaluate", E1)):
             for i, v in enumerate(ps or []):
@@ -328,7 +397,7 @@ def law_vcs(repo, ci, laws=("L1", "L2", "L3", "L6", "L6v", "L4a", "L5", "L5d", "
                     goal = z3.And(*[z3.Implies(pathcond(x), x.kind == "ok") for x in X1])
                     vcs.append(VC(f"{C}:L5d:{meth}#{i}", hyp + v.pc + v.defs, goal, {"law": "L5d", "cls": C}))
     if "L4t" in laws and V1 is not None and E1 is not None and K1 is not None:
-        tot = hyp + T.total_axioms()
+        tot = hyp + T.total_axioms() + class_total(ci)
         for i, v in enumerate(V1):
             goal = z3.And(*[z3.Implies(pathcond(e), e.kind == v.kind) for e in E1 if not after_return(e)] or [z3.BoolVal(True)])
             vcs.append(VC(f"{C}:L4t:validate#{i}~evaluate", tot + v.pc + v.defs, goal, {"law": "L4t", "cls": C}))
